@@ -77,6 +77,15 @@ def mask_code(s):
                     j += 1
             blank(i, j)
             i = j
+        elif s[i] in 'bc' and re.match(r'[bc]r#*"', s[i:]) and not (i > 0 and (s[i - 1].isalnum() or s[i - 1] == '_')):
+            # raw byte / C string literals: br"..", br#".."#, cr".." -- no escapes inside
+            m = re.match(r'[bc]r(#*)"', s[i:])
+            close = '"' + m.group(1)
+            a = i + m.end()
+            j = s.find(close, a)
+            j = n if j < 0 else j
+            blank(a, j)
+            i = j + len(close)
         elif s[i] == '"' or (s[i] == 'r' and re.match(r'r#*"', s[i:]) and not (i > 0 and (s[i - 1].isalnum() or s[i - 1] == '_'))):
             if s[i] == 'r':
                 m = re.match(r'r(#*)"', s[i:])
